@@ -121,6 +121,11 @@ class SyncedDict(SyncedCollection, MutableMapping):
             If True, the data will not be validated (Default value = False).
 
         """
+        if _sc_resolver.get_type(data) == "SYNCEDCOLLECTION":
+            # Snapshot synced data first: if it is an ancestor of this
+            # collection it would change while it is being merged in.
+            data = data()
+
         if data is None:
             # If no data is passed, take no action.
             pass
